@@ -138,7 +138,7 @@ def c17(ctx, finish):
         else:
             ctx.replayed += res["checked"]
             for s in seqs:
-                ctx.distinct.add(json.dumps(s["seq"]))
+                ctx.distinct.add(json.dumps([s.get("start"), s["seq"]]))
             mid = seqs[len(seqs) // 2]
             ctx.samples.append({"kind": "builder call sequence executed on a real StoreBuilder",
                                 "calls": [[c["m"], c["n"], c["s"], c["l"]] for c in mid["seq"]], "expected_settings": mid["cfg"],
@@ -147,7 +147,7 @@ def c17(ctx, finish):
                              "policy_probes": res.get("probed"), "exhaustive": True})
             if res.get("mismatch"):
                 mm = res["mismatch"]
-                bad = [s for s in seqs if s["seq"] == mm["seq"]]
+                bad = [s for s in seqs if s["seq"] == mm["seq"]][:2]
                 art = checkmain.save_artifact(ctx, "builder", {"kind": "builder sequence", "seq": "builder", "seqs": bad, "mismatch": mm})
                 ctx.violations.append(("StoreBuilder deviates from Builder.tla after %s: %s: expected settings %s, got %s"
                                        % ([c["m"] for c in mm["seq"]], mm["what"], json.dumps(mm["expected"]), json.dumps(mm["got"])), art))
